@@ -1057,6 +1057,11 @@ class AnsiString:
                     key == shift
                     and settings.add
                     and self._fmts[key].rem[:len(settings.add)] == settings.add
+                    # The settings may only be carried over if they take effect in this same order at my end
+                    and [
+                        s for s in self.ansi_settings_at(shift - 1)
+                        if __class__._find_setting_reference(s, self._fmts[key].rem[:len(settings.add)]) >= 0
+                    ] == settings.add
                 ):
                     # Special case - the string being added contains same formatting as end of my string.
                     # Because the settings work based on references instead of values, the settings not only
